@@ -20,7 +20,8 @@ Observation:
               [[part, lower raw tree, [lo, hi] of the lower fiber, its shape-or-[]] ...]]
              with resplit each "lower raw tree" is replaced by X(0, lower) under the second split
   X(k, f)  = [[c, X(k-1, payload)] ...]     an element the split did not touch (empty payload)
-             is reported as [c, [-3, raw tree]]
+             is reported as [c, [-3, raw tree]]; since fix S29 (_clearEmptyFibers) that raw tree
+             is the empty fiber
   exception -> [-1, code]   1 AssertionError, 3 ValueError, 9 anything else
 """
 import ftutil as U
